@@ -216,7 +216,7 @@ AMP = ["https://www-lemonde-fr.cdn.ampproject.org/c/s/www.lemonde.fr/x.html", "h
        "https://a.cdn.ampproject.org/c/s/", "https://a.cdn.ampproject.org/c/", "https://bc.marfeelcache.com/amp/www.lemonde.fr/x", "https://bc.marfeel.com/www.lemonde.fr/x", "https://bc.marfeel.com/",
        "https://a.cdn.ampproject.org/c/s/b.org/?url=https%3A%2F%2Fc.net%2Fz", "https://a.cdn.ampproject.org/c/s/a.cdn.ampproject.org/c/s/b.org/x", "https://A.CDN.AMPPROJECT.ORG/C/S/b.org/x",
        "https://www.youtube.com/redirect?q=b.org%2Fx", "https://www.youtube.com/redirect?q=https%3A%2F%2Fb.org%2Fx&v=1", "http://google.com/url?q=https%3A%2F%2Fb.org", "http://a.com/?q=https%3A%2F%2Fb.org",
-       "http://a.com/redirect/x?q=/y", "http://a.com/?u=//&u=/x", "http://a&u=/x", "http://a.com/p?u=%2Fp%3Fu%3D%252Fp", "", " ", "u=", "=", "?u=/", "http://a.com/?u=/?u=/?u=/", "/?u=/x"]
+       "http://a.com/redirect/x?q=/y", "http://a.com/?u=//&u=/x", "http://a&u=/x", "http://a.com/p?u=%2Fp%3Fu%3D%252Fp", "", " ", "u=", "=", "?u=/", "http://a.com/?u=/?u=/?u=/", "/?u=/x", "http://bad]host/?next=/foo", "http://[::1/?u=/x&url=%2Fy"]
 
 
 def run(ctx):
